@@ -33,7 +33,7 @@ HTML_ASCII_CASE_INSENSITIVE_COLLATION = \
 XQUERY_TEST_SUITE_CASEBLIND_COLLATION = \
     "http://www.w3.org/2010/09/qt-fots-catalog/collation/caseblind"
 
-_locale_collate_lock = threading.Lock()
+_locale_collate_lock = threading.RLock()  # re-entrant: collation functions can be nested
 
 
 def get_locale_category(category: int) -> str:
